@@ -284,13 +284,68 @@ func ruleDFFLOW(c *Ctx, r *Report) {
 		r.bad(rule, "anchor", "-", "parser has no default-field member")
 		return
 	}
+	// carriers: (function, parameter) pairs that hold the option's value — the reducer signature's third
+	// parameter, and any parameter of a helper in the two packages that receives a carrier unchanged
+	carrier := map[*ssa.Function]map[int]bool{}
+	addCarrier := func(f *ssa.Function, i int) bool {
+		if carrier[f] == nil {
+			carrier[f] = map[int]bool{}
+		}
+		if carrier[f][i] {
+			return false
+		}
+		carrier[f][i] = true
+		return true
+	}
+	for _, f := range c.Funcs {
+		if fnPkgPath(f) == pkgReduce && f.Signature.Params().Len() == 3 && f.Signature.Recv() == nil && len(f.Params) == 3 && isStringType(f.Params[2].Type()) {
+			addCarrier(f, 2)
+		}
+	}
+	isCarrierArg := func(f *ssa.Function, a ssa.Value) bool {
+		k := c.key(a, nil)
+		if strings.HasSuffix(k, "."+pr.DefF.Name()) && !strings.ContainsAny(k, "(,") {
+			return true
+		}
+		for i := range carrier[f] {
+			if k == fmt.Sprintf("$%d", i) {
+				return true
+			}
+		}
+		return false
+	}
+	for changed := true; changed; {
+		changed = false
+		for _, f := range c.Funcs {
+			p := fnPkgPath(f)
+			if p != pkgRoot && p != pkgReduce {
+				continue
+			}
+			for _, b := range f.Blocks {
+				for _, in := range b.Instrs {
+					call, ok := in.(*ssa.Call)
+					if !ok {
+						continue
+					}
+					g := call.Call.StaticCallee()
+					if g == nil || len(g.Blocks) == 0 || (fnPkgPath(g) != pkgRoot && fnPkgPath(g) != pkgReduce) || len(call.Call.Args) != len(g.Params) {
+						continue
+					}
+					for j, a := range call.Call.Args {
+						if isCarrierArg(f, a) && addCarrier(g, j) {
+							changed = true
+						}
+					}
+				}
+			}
+		}
+	}
 	n := 0
 	for _, f := range c.Funcs {
 		p := fnPkgPath(f)
 		if p != pkgRoot && p != pkgReduce {
 			continue
 		}
-		isReducerSig := p == pkgReduce && f.Signature.Params().Len() == 3
 		for _, b := range f.Blocks {
 			iff, ok := b.Instrs[len(b.Instrs)-1].(*ssa.If)
 			if !ok {
@@ -303,8 +358,11 @@ func ruleDFFLOW(c *Ctx, r *Report) {
 					return strings.HasSuffix(k, "."+pr.DefF.Name()) && !strings.ContainsAny(k, "(,")
 				}
 				mentions := isField(a.Subj) || isField(a.Val)
-				if isReducerSig && (a.Subj == "$2" || a.Val == "$2" || a.Subj == "len($2)") {
-					mentions = true
+				for i := range carrier[f] {
+					pk := fmt.Sprintf("$%d", i)
+					if a.Subj == pk || a.Val == pk || a.Subj == "len("+pk+")" {
+						mentions = true
+					}
 				}
 				if f == pt.Wrapper && (a.Subj == "$1" || strings.Contains(s, "$1")) {
 					n++
@@ -369,12 +427,7 @@ func ruleDFFLOW(c *Ctx, r *Report) {
 					continue
 				}
 				for _, a := range call.Call.Args {
-					k := c.key(a, nil)
-					isOpt := strings.HasSuffix(k, "."+pr.DefF.Name()) && !strings.ContainsAny(k, "(,")
-					if p == pkgReduce && f.Signature.Params().Len() == 3 && k == "$2" {
-						isOpt = true
-					}
-					if !isOpt {
+					if !isCarrierArg(f, a) {
 						continue
 					}
 					nUse++
@@ -383,6 +436,8 @@ func ruleDFFLOW(c *Ctx, r *Report) {
 					switch {
 					case callee == reduceFn || isReducer[callee] || (callee != nil && callee == pt.Wrapper):
 						r.ok(rule, key, c.instrPos(in), "handed to the reducers / wrapping helper")
+					case callee != nil && callee != f && fnPkgPath(callee) == pkgReduce && p == pkgReduce && len(carrier[callee]) > 0 && len(callee.Blocks) > 0:
+						r.ok(rule, key, c.instrPos(in), "handed to a helper of the reducers whose use of it is checked by this rule")
 					case callee == nil && p == pkgReduce:
 						r.ok(rule, key, c.instrPos(in), "handed to a reducer through the reducer list")
 					case (f == pr.ParseLoop || helper || f == pt.Wrapper) && callee != nil && fnPkgPath(callee) == pkgExpr:
@@ -452,6 +507,8 @@ func ruleLOOP(c *Ctx, r *Report) {
 				r.ok(rule, key, pos, "countdown loop: the counter (or the remaining slice) strictly decreases towards the bound")
 			case isState[fn]:
 				r.ok(rule, key, pos, "lexer state loop (LEX-LOOP)")
+			case lr.Err == "" && c.lexHelperLoopCovered(lr, fn, h):
+				r.ok(rule, key, pos, "loop of a lexer helper that LEX-LOOP reads in place in every state that calls it")
 			case lr.Err == "" && fn == lr.Next:
 				r.ok(rule, key, pos, "state-machine loop (LEX-STATES: transition relation acyclic)")
 			case pr.Err == "" && fn == pr.ParseLoop:
@@ -464,6 +521,57 @@ func ruleLOOP(c *Ctx, r *Report) {
 		}
 	}
 	r.floor(rule, "loops", nLoops, 12)
+}
+
+// lexHelperLoopCovered: fn is a helper of the lexer that is only ever called (directly or through such
+// helpers) from state functions, where the path walker reads it in place; the loop head was seen on a
+// cycle path of some state, so LEX-LOOP's progress/exit argument was applied to it.
+func (c *Ctx) lexHelperLoopCovered(lr *LexRoles, fn *ssa.Function, h *ssa.BasicBlock) bool {
+	opts := c.lexInl(lr, false)
+	isState := map[*ssa.Function]bool{}
+	for _, s := range lr.States {
+		isState[s] = true
+	}
+	var fromStates func(g *ssa.Function, depth int) bool
+	fromStates = func(g *ssa.Function, depth int) bool {
+		if isState[g] {
+			return true
+		}
+		if depth > 3 || !opts.Pred(g) {
+			return false
+		}
+		sites, ok := c.privateHelper(g)
+		if !ok {
+			return false
+		}
+		for _, cs := range sites {
+			if !fromStates(cs.Parent(), depth+1) {
+				return false
+			}
+		}
+		return true
+	}
+	if !fromStates(fn, 0) {
+		return false
+	}
+	memo := "lexCoveredHeads"
+	var heads map[*ssa.BasicBlock]bool
+	if v, ok := c.roles[memo]; ok {
+		heads = v.(map[*ssa.BasicBlock]bool)
+	} else {
+		heads = map[*ssa.BasicBlock]bool{}
+		for _, s := range lr.States {
+			cps, complete := c.cyclePathsOpt(s, opts)
+			if !complete {
+				continue
+			}
+			for _, cp := range cps {
+				heads[cp.head] = true
+			}
+		}
+		c.roles[memo] = heads
+	}
+	return heads[h]
 }
 
 // isCountingLoop: header tests `i < X` / `i <= X` for a phi i of the header whose every back-edge value
@@ -733,12 +841,31 @@ func ruleREC(c *Ctx, r *Report) {
 		ok     bool
 		at     ssa.Instruction
 		arg    string
+		raw    []Atom         // facts at the call (in the owner's terms)
+		consts map[int]string // constant arguments by position ("nil" for a nil constant)
 	}
 	edges := map[*ssa.Function][]edge{}
-	for fn := range reach {
-		if !inLib(fn) {
-			continue
+	// A private helper that does not call itself has no node of its own: its calls are attributed to each
+	// of its callers, with the caller's facts at the call added and the helper's parameters read as the
+	// caller's arguments. A case of a function that was moved behind a helper is then judged exactly as it
+	// was in place.
+	liftable := func(h *ssa.Function) bool {
+		if !inLib(h) || !reach[h] || c.calls(h, h) {
+			return false
 		}
+		sites, ok := c.privateHelper(h)
+		if !ok {
+			return false
+		}
+		for _, cs := range sites {
+			if !reach[cs.Parent()] {
+				return false
+			}
+		}
+		return true
+	}
+	var collect func(owner, fn *ssa.Function, outer []Atom, depth int)
+	collect = func(owner, fn *ssa.Function, outer []Atom, depth int) {
 		for _, b := range fn.Blocks {
 			for _, in := range b.Instrs {
 				call, ok := in.(*ssa.Call)
@@ -749,8 +876,34 @@ func ruleREC(c *Ctx, r *Report) {
 				if sc == nil || !inLib(sc) || !reach[sc] {
 					continue
 				}
+				here := append(append([]Atom(nil), outer...), c.domAtoms(b)...)
+				if sc != fn && sc != owner && depth < 2 && liftable(sc) && len(call.Call.Args) == len(sc.Params) {
+					old := c.ctxEnv
+					ce := &env{mem: map[*ssa.Alloc]ssa.Value{}, phi: map[*ssa.Phi]ssa.Value{}, par: map[*ssa.Parameter]ssa.Value{}, dom: true}
+					if old != nil {
+						for k, v := range old.par {
+							ce.par[k] = v
+						}
+					}
+					for j, a := range call.Call.Args {
+						ce.par[sc.Params[j]] = a
+					}
+					c.ctxEnv = ce
+					collect(owner, sc, here, depth+1)
+					c.ctxEnv = old
+					continue
+				}
 				// the tree-carrying argument: the first argument of interface or *Expression type
-				e := edge{to: sc, at: in}
+				e := edge{to: sc, at: in, raw: here, consts: map[int]string{}}
+				for j, a := range call.Call.Args {
+					if k, ok := c.resolve(a, nil).(*ssa.Const); ok {
+						if k.Value == nil {
+							e.consts[j] = "nil"
+						} else {
+							e.consts[j] = c.constName(k)
+						}
+					}
+				}
 				for _, a := range call.Call.Args {
 					if isEmptyInterface(a.Type()) || isExprPtr(a.Type()) {
 						k := c.key(a, nil)
@@ -764,10 +917,22 @@ func ruleREC(c *Ctx, r *Report) {
 						break
 					}
 				}
-				edges[fn] = append(edges[fn], e)
+				edges[owner] = append(edges[owner], e)
 			}
 		}
 	}
+	nLifted := 0
+	for fn := range reach {
+		if !inLib(fn) {
+			continue
+		}
+		if liftable(fn) {
+			nLifted++
+			continue
+		}
+		collect(fn, fn, nil, 0)
+	}
+	r.extra["rec_helpers_attributed_to_callers"] = nLifted
 	// context: constants an edge passes for each parameter of its callee, and the guard atoms of
 	// each call site. A pair (incoming edge into F, outgoing edge from F) is infeasible when the
 	// guard of the outgoing call contradicts the constants the incoming call passes — this is what
@@ -787,52 +952,51 @@ func ruleREC(c *Ctx, r *Report) {
 		if fnName(all[i].from) != fnName(all[j].from) {
 			return fnName(all[i].from) < fnName(all[j].from)
 		}
-		return all[i].e.at.Pos() < all[j].e.at.Pos()
+		if all[i].e.at.Pos() != all[j].e.at.Pos() {
+			return all[i].e.at.Pos() < all[j].e.at.Pos()
+		}
+		return all[i].e.arg < all[j].e.arg
 	})
 	feasible := func(in, out cedge) bool {
-		call := in.e.at.(*ssa.Call)
-		raw := c.domAtoms(out.e.at.Block())
+		raw := out.e.raw
 		guard := c.expand(raw, nil)
 		var given []Atom
-		for j, a := range call.Call.Args {
-			if k, ok := c.resolve(a, nil).(*ssa.Const); ok && k.Value != nil {
-				given = append(given, Atom{Kind: "cmp", Subj: fmt.Sprintf("$%d", j), Op: "==", Val: c.constName(k)})
+		for j, name := range in.e.consts {
+			if name != "nil" {
+				given = append(given, Atom{Kind: "cmp", Subj: fmt.Sprintf("$%d", j), Op: "==", Val: name})
 			}
 		}
+		sort.Slice(given, func(i, j int) bool { return given[i].Subj < given[j].Subj })
 		for _, g := range raw {
 			if !c.callCompatible(g, given) {
 				return false
 			}
 		}
-		for j, a := range call.Call.Args {
+		for j, name := range in.e.consts {
 			pk := fmt.Sprintf("$%d", j)
-			av := c.resolve(a, nil)
-			if k, ok := av.(*ssa.Const); ok {
-				if k.Value == nil {
-					// nil slice / nil interface: contradicts len($j) ≥ 1 and $j != nil
-					lo, _ := lenRange(guard, pk)
-					if lo >= 1 {
-						return false
-					}
-					for _, g := range guard {
-						if g.Kind == "nil" && g.Subj == pk && !g.Pos {
-							return false
-						}
-					}
-					continue
-				}
-				name := c.constName(k)
-				poss := map[string]bool{name: true}
-				for _, g := range guard {
-					if g.Kind == "cmp" && g.Subj == pk {
-						if g.Op == "==" && g.Val != name || g.Op == "!=" && g.Val == name {
-							delete(poss, name)
-						}
-					}
-				}
-				if len(poss) == 0 {
+			if name == "nil" {
+				// nil slice / nil interface: contradicts len($j) ≥ 1 and $j != nil
+				lo, _ := lenRange(guard, pk)
+				if lo >= 1 {
 					return false
 				}
+				for _, g := range guard {
+					if g.Kind == "nil" && g.Subj == pk && !g.Pos {
+						return false
+					}
+				}
+				continue
+			}
+			poss := map[string]bool{name: true}
+			for _, g := range guard {
+				if g.Kind == "cmp" && g.Subj == pk {
+					if g.Op == "==" && g.Val != name || g.Op == "!=" && g.Val == name {
+						delete(poss, name)
+					}
+				}
+			}
+			if len(poss) == 0 {
+				return false
 			}
 		}
 		return true
@@ -935,7 +1099,7 @@ func ruleREC(c *Ctx, r *Report) {
 				for _, op := range operands {
 					mi, isMI := op.(*ssa.MakeInterface)
 					if isMI {
-												if !isExprPtr(mi.X.Type()) {
+						if !isExprPtr(mi.X.Type()) {
 							continue
 						}
 					} else if !isEmptyInterface(op.Type()) {
